@@ -370,6 +370,11 @@ def c04_programs():
                 sp["funcs"].append({"name": "root2", "module": "main", "params": [], "body": [copy.deepcopy(last)]})
                 sp["entries"]["eval_sub"] = {"kind": "eval", "fn": "root2"}
                 sp["eps"] = [e for e in sp["eps"] if e["id"] in ("V0", "V2")]
+                # the first node evaluated on its own as a top-level kept call (its blob may already exist: revert histories)
+                if styles[0] == "datafn":
+                    sp["entries"]["top_n0"] = {"kind": "call", "fn": "N0"}
+                else:
+                    sp["entries"]["top_n0"] = {"kind": "keep", "fn": "N0", "path": paths[0]}
                 sp["id"] = f"P{pi}/{shape}/{'-'.join(styles)}"
                 sp["key"] = f"paths|set={pi}"
                 out.append(sp)
